@@ -59,13 +59,18 @@ def frame(payload, pad_extra=0, padbyte=b'\x00', block=8):
     return u32(len(payload) + pad + 1) + bytes([pad]) + payload + padbyte * pad
 
 
+def ssh1_crc32(data):
+    """SSH-1 CRC-32: the IEEE polynomial with a zero initial value and no final inversion (protocol 1.5)."""
+    return (zlib.crc32(data, 0xffffffff) ^ 0xffffffff) & 0xffffffff
+
+
 def frame1(ptype, data):
     """SSH-1 packet: length(4) | padding(1..8) | type(1) | data | crc32(4)."""
     body = bytes([ptype]) + data
     length = len(body) + 4
     padlen = 8 - length % 8
     pad = b'\x00' * padlen
-    crc = zlib.crc32(pad + body) & 0xffffffff
+    crc = ssh1_crc32(pad + body)
     return u32(length) + pad + body + u32(crc)
 
 
